@@ -8,7 +8,11 @@ for e in a + b:
     k = (e["property"], e["key"])
     if k in seen: continue
     seen.add(k); out.append(e)
-json.dump({"findings": out}, open("known_findings.json", "w"), indent=1)
+ours_full = json.loads(subprocess.run(["git","show",":2:known_findings.json"],stdout=subprocess.PIPE,check=True).stdout)
+# ours wins on status (e.g. "fixed"); entries only in theirs are added as they are
+ours_full["findings"] = out
+ours_full["fixed_lines"] = ["fixed: property=%s %s %s" % (e["property"], e.get("commit", "?"), e["what"][:160]) for e in out if e.get("status") == "fixed"]
+json.dump(ours_full, open("known_findings.json", "w"), indent=1)
 print("merged:", len(a), "+", len(b), "->", len(out))
 for e in b:
     if (e["property"], e["key"]) not in {(x["property"], x["key"]) for x in a}: print("  new:", e["property"], e["key"])
